@@ -20,6 +20,7 @@ Vocabulary (strict; anything else raises Unsupported):
     return True / fall off the end                       (g, true) / some g
 Logging statements and docstrings are dropped first (as in extract/filesystem.py)."""
 import ast
+import json
 from typing import List
 
 from harness.extract.filesystem import FOLDER, _is_syslog
@@ -199,12 +200,10 @@ def _rcond(e: ast.AST, item: str) -> str:
             return f"({fld} != {_health(r)})"
         if fld and isinstance(op, ast.In) and isinstance(r, ast.List):
             return "(" + " || ".join(f"{fld} == {_health(x)}" for x in r.elts) + ")"
-        if item == "g" and l == "self.restore_countdown" and isinstance(op, ast.LtE) and _u(r) == "0":
-            return "decide (r.g.restoreCountdown ≤ 0)"
-        if item == "g" and l == "self.restore_countdown" and isinstance(op, ast.GtE) and _u(r) == "0":
-            return "decide (r.g.restoreCountdown ≥ 0)"
-        if item == "g" and l == "self.restore_countdown" and isinstance(op, ast.Eq) and _u(r) == "0":
-            return "decide (r.g.restoreCountdown = 0)"
+        if item == "g" and l == "self.restore_countdown" and _u(r) == "0":
+            sym = {ast.LtE: "≤", ast.GtE: "≥", ast.Eq: "=", ast.Lt: "<", ast.Gt: ">", ast.NotEq: "≠"}.get(type(op))
+            if sym:
+                return f"decide (r.g.restoreCountdown {sym} 0)"
     raise Unsupported("condition " + u)
 
 
@@ -355,6 +354,18 @@ def _lstmts(body: List[ast.stmt], kind: str, res: str, env: dict, ind: int) -> s
         t = st.test
         if _is_type_guard(t) and len([b for b in st.body if not _rskip(b)]) == 1 and isinstance(st.body[-1], ast.Raise):
             return _lstmts(rest, kind, res, env, ind)
+        # `if <name parameter> == "<literal>":`
+        if (isinstance(t, ast.Compare) and isinstance(t.left, ast.Name) and env.get(t.left.id) == "name" and isinstance(t.ops[0], ast.Eq)
+                and isinstance(t.comparators[0], ast.Constant) and isinstance(t.comparators[0].value, str)):
+            return (pad + f"if {t.left.id} == {json.dumps(t.comparators[0].value)} then\n" + _lstmts(list(st.body) + rest, kind, res, env, ind + 1)
+                    + "\n" + pad + "else\n" + _lstmts(list(st.orelse) + rest, kind, res, env, ind + 1))
+        # `if X is None:` on an Optional
+        if (isinstance(t, ast.Compare) and isinstance(t.left, ast.Name) and env.get(t.left.id) in ("optfile", "optfolder")
+                and isinstance(t.ops[0], (ast.Is, ast.IsNot)) and isinstance(t.comparators[0], ast.Constant) and t.comparators[0].value is None):
+            x = t.left.id
+            none_b, some_b = (list(st.body), list(st.orelse)) if isinstance(t.ops[0], ast.Is) else (list(st.orelse), list(st.body))
+            return (pad + f"match {x} with\n" + pad + f"| some {x} =>\n" + _lstmts(some_b + rest, kind, res, dict(env, **{x: env[x][3:]}), ind + 1)
+                    + "\n" + pad + "| none =>\n" + _lstmts(none_b + rest, kind, res, env, ind + 1))
         neg = isinstance(t, ast.UnaryOp) and isinstance(t.op, ast.Not)
         core = t.operand if neg else t
         yes, no = (list(st.orelse), list(st.body)) if neg else (list(st.body), list(st.orelse))
@@ -395,6 +406,33 @@ def _lstmts(body: List[ast.stmt], kind: str, res: str, env: dict, ind: int) -> s
             x = st.value.id
             return (pad + f"let g := {{ g with deletedFiles := dictSet File.id g.deletedFiles {x}.delete }}\n" + _lstmts(rest[1:], kind, res, env, ind))
         raise Unsupported("store " + _u(st))
+    if kind == "fs" and isinstance(st, ast.Assign) and len(st.targets) == 1 and isinstance(st.targets[0], ast.Subscript):
+        tgt = st.targets[0]
+        d = {"self.folders": "folders", "self.deleted_folders": "deletedFolders"}.get(_u(tgt.value))
+        if d and isinstance(st.value, ast.Name) and env.get(st.value.id) == "folder" and _u(tgt.slice) == f"{st.value.id}.uuid":
+            return pad + f"let s := {{ s with {d} := dictSet Folder.id s.{d} {st.value.id} }}\n" + _lstmts(rest, kind, res, env, ind)
+        raise Unsupported("store " + _u(st))
+    if kind == "fs" and isinstance(st, ast.Expr) and isinstance(st.value, ast.Call):
+        c = st.value
+        f = _u(c.func)
+        d = {"self.folders.pop": "folders", "self.deleted_folders.pop": "deletedFolders"}.get(f)
+        if d and c.args and isinstance(c.args[0], ast.Attribute) and c.args[0].attr == "uuid" and env.get(_u(c.args[0].value)) == "folder" \
+                and (len(c.args) == 1 or _u(c.args[1]) == "None"):
+            return pad + f"let s := {{ s with {d} := dictPop Folder.id s.{d} {_u(c.args[0].value)}.id }}\n" + _lstmts(rest, kind, res, env, ind)
+        # a method of the folder object itself: the object is (re)stored afterwards, so the variable is rebound to the result;
+        # restore() / delete() are the TRANSLATED Folder methods (their structural result does not depend on health)
+        if isinstance(c.func, ast.Attribute) and isinstance(c.func.value, ast.Name) and env.get(c.func.value.id) == "folder" and not c.args and not c.keywords:
+            x = c.func.value.id
+            call = {"restore": f"(folderRestore {{ g := {x} }}).1.g", "delete": f"(folderDelete {{ g := {x} }}).1.g",
+                    "remove_all_files": f"{x}.removeAllFiles"}.get(c.func.attr)
+            if call:
+                return pad + f"let {x} := {call}\n" + _lstmts(rest, kind, res, env, ind)
+        if f == "self._folder_request_manager.add_request":
+            nm, rt = _lkw(c, "name", 0), _lkw(c, "request_type", 1)
+            if (isinstance(nm, ast.Attribute) and nm.attr == "name" and env.get(_u(nm.value)) == "folder" and isinstance(rt, ast.Call)
+                    and _u(rt.func) == "RequestType" and len(rt.keywords) == 1 and _u(rt.keywords[0].value) == f"{_u(nm.value)}._request_manager"):
+                x = _u(nm.value)
+                return pad + f"let s := {{ s with folderRoutes := ({x}.name, {x}.id) :: s.folderRoutes }}\n" + _lstmts(rest, kind, res, env, ind)
     if isinstance(st, ast.Expr) and isinstance(st.value, ast.Call):
         c = st.value
         f = _u(c.func)
@@ -416,6 +454,8 @@ LOOKUP_METHODS = [  # (class, method, lean name, kind, result, parameters (pytho
     ("FileSystem", "get_folder", "fsGetFolder", "fs", "optfolder", [("folder_name", "Name", None), ("include_deleted", "Bool", "bool")]),
     ("FileSystem", "delete_file", "fsDeleteFile", "fs", "bool", [("folder_name", "Name", None), ("file_name", "Name", None)]),
     ("FileSystem", "restore_file", "fsRestoreFile", "fs", "bool", [("folder_name", "Name", None), ("file_name", "Name", None)]),
+    ("FileSystem", "restore_folder", "fsRestoreFolder", "fs", "bool", [("folder_name", "Name", "name")]),
+    ("FileSystem", "delete_folder", "fsDeleteFolder", "fs", "bool", [("folder_name", "Name", "name")]),
 ]
 RESULT_TYPE = {("folder", "optfile"): "Option File", ("folder", "unit"): "Folder", ("folder", "bool"): "Folder × Bool",
                ("fs", "optfolder"): "Option Folder", ("fs", "bool"): "State × Bool"}
